@@ -1338,7 +1338,8 @@ class Server:
             else:
                 file_mode = mode
             file_out = connection.path_io.open(real_path, mode=file_mode)
-            async with file_out, stream:
+            # stream first: it must be closed even if the file can not be opened
+            async with stream, file_out:
                 if connection.restart_offset:
                     await file_out.seek(connection.restart_offset)
                 async for data in stream.iter_by_block(connection.block_size):
@@ -1380,7 +1381,8 @@ class Server:
             stream = connection.data_connection
             del connection.data_connection
             file_in = connection.path_io.open(real_path, mode="rb")
-            async with file_in, stream:
+            # stream first: it must be closed even if the file can not be opened
+            async with stream, file_in:
                 if connection.restart_offset:
                     await file_in.seek(connection.restart_offset)
                 async for data in file_in.iter_by_block(connection.block_size):
